@@ -59,6 +59,44 @@ func main() {
 		for _, s := range c.G.Sites {
 			fmt.Printf("%-12s %-28s %-16s %s  in %s\n", s.Class, s.Resource, s.Verb, s.Pos, s.Fn.FullName())
 		}
+	case "checkall":
+		// development aid: every property (or the listed ones) on one load, no evidence written
+		fnd, err := rules.LoadFindings(*findings)
+		if err != nil {
+			fmt.Println("CHECKER-FAILURE:", err)
+			os.Exit(2)
+		}
+		abs, _ := filepath.Abs(*repo)
+		p, err := load.Load(abs, false, "", "")
+		if err != nil {
+			fmt.Println("CHECKER-FAILURE:", err)
+			os.Exit(2)
+		}
+		ids := args
+		if len(ids) == 0 {
+			for id := range rules.Registry {
+				ids = append(ids, id)
+			}
+			sort.Strings(ids)
+		}
+		tmp, _ := os.MkdirTemp("", "asv-all-")
+		defer os.RemoveAll(tmp)
+		worst := 0
+		for _, id := range ids {
+			c := rules.NewCtx(p, "quick")
+			res := rules.RunProperty(c, rules.Registry[id], fnd, 0, tmp, map[string]any{})
+			fmt.Printf("== %s exit %d\n", id, res.Exit)
+			if res.Exit != 0 {
+				for _, l := range res.Lines {
+					fmt.Println(l)
+				}
+			}
+			if res.Exit > worst {
+				worst = res.Exit
+			}
+		}
+		os.RemoveAll(tmp)
+		os.Exit(worst)
 	case "check":
 		if len(args) != 1 {
 			fmt.Fprintln(os.Stderr, "usage: asverif check <Cxx>")
